@@ -1,13 +1,14 @@
 SPECIFICATION GenSpec
 CONSTANTS
- MaxStep = 3
+ MaxStep = 2
  Tol = 1
  AuthGate = TRUE
  Regress = TRUE
  Off = 0
- GenLen = 30
+ GenLen = 40
  Crashes = FALSE
  FaultAfter = 0
+ StopFrom = 3
  GenCfgs = "honest"
 INVARIANTS Emit
 CHECK_DEADLOCK FALSE
